@@ -16,6 +16,7 @@ import time
 sys.path.insert(0, os.path.dirname(os.path.abspath(__file__)))
 import vlib  # noqa: E402
 import kani as kanilib  # noqa: E402
+import assume_audit  # noqa: E402
 
 ROOT = vlib.ROOT
 
@@ -276,6 +277,25 @@ def main():
         else:
             violations.append(f)
 
+    # audit of assumed (abstracted-callee) contracts against the groups that prove them
+    audit_out = {"ensures_not_proved": [], "unchained_preconditions": [], "trusted_callees": []}
+    try:
+        mism, trusted, _n = assume_audit.audit()
+        mine = set(spec["groups"])
+        for m in mism:
+            if m["assumed_in"] not in mine:
+                continue
+            if m["ensures_missing"]:
+                audit_out["ensures_not_proved"].append("%s (assumed in %s, proved in %s): %s" % (m["unit"], m["assumed_in"], m["proved_in"], "; ".join(m["ensures_missing"])[:300]))
+            if m["requires_unchecked"]:
+                audit_out["unchained_preconditions"].append("%s is entered by contract in %s; its proof in %s additionally requires: %s" % (m["unit"], m["assumed_in"], m["proved_in"], "; ".join(m["requires_unchecked"])[:300]))
+        for uid, gs in trusted:
+            if set(gs) & mine:
+                audit_out["trusted_callees"].append("%s (contract assumed, proved nowhere)" % uid)
+    except Exception as e:  # noqa: BLE001
+        undecided.append("assumed-contract audit failed: %r" % (e,))
+    if audit_out["ensures_not_proved"]:
+        undecided.append("an assumed callee contract is stronger than what its owner proves: %s" % audit_out["ensures_not_proved"])
     n_ob = len(obligations)
     n_dis = sum(1 for o in obligations if o.get("discharged"))
     rc = 0
@@ -351,12 +371,13 @@ def main():
             "bounded": spec.get("bounded", []),
             "bounded_checks": bounded_checks,
             "kani": kani_out,
+            "assumed_contract_audit": audit_out,
             "undecided": undecided,
             "known_findings_hit": [k.get("what") for k, _ in known_hits],
             "unstable": unstable,
             "exit_code": rc,
         },
-        "assumptions": spec.get("assumptions", []),
+        "assumptions": spec.get("assumptions", []) + ["UNCHAINED: " + x for x in audit_out["unchained_preconditions"]] + ["TRUSTED CALLEE: " + x for x in audit_out["trusted_callees"]],
     }
     json.dump(ev, open(evidence_path, "w"), indent=1)
     for l in lines:
